@@ -44,7 +44,8 @@ func simAttachRealStores(s *simSys, dir string) func() {
 		panic("VERIF-INCONCLUSIVE: " + err.Error())
 	}
 	s.w.realB, s.w.realL = lb, sb
-	return func() {
+	s.realDir = dir
+	release := func() {
 		sb.conn.Close()
 		// as root the immutable inode flag is really set on immutable objects: clear it so the directory can be removed
 		filepath.WalkDir(logDir, func(p string, d fs.DirEntry, err error) error {
@@ -57,6 +58,19 @@ func simAttachRealStores(s *simSys, dir string) func() {
 			return nil
 		})
 	}
+	simRealReleases = append(simRealReleases, release)
+	return release
+}
+
+// simRealReleases collects the release functions of every real store attached since the last simReleaseAllReal
+// (the exhaustive sweeps clone systems, and with them their real stores, many times per case).
+var simRealReleases []func()
+
+func simReleaseAllReal() {
+	for _, f := range simRealReleases {
+		f()
+	}
+	simRealReleases = nil
 }
 
 // simCompareRealDir checks that the real directory holds exactly the model's objects.
